@@ -155,6 +155,41 @@ class NPProxy:
             return SymBool(z3.Or(*es))
         return _np.any(a, *args, **kw)
 
+    def all(self, a, *args, **kw):
+        if isinstance(a, _np.ndarray) and a.dtype == object and not args and not kw:
+            es = []
+            for x in a.ravel():
+                if isinstance(x, SymReal):
+                    es.append(x.e != 0)
+                elif isinstance(x, SymBool):
+                    es.append(x.e)
+                else:
+                    es.append(z3.BoolVal(bool(x)))
+            return SymBool(z3.And(*es))
+        return _np.all(a, *args, **kw)
+
+    def isclose(self, a, b, rtol=1e-05, atol=1e-08, equal_nan=False):
+        # numpy's definition over the reals: |a - b| <= atol + rtol * |b| (no NaN / inf among reals)
+        if not has_sym((a, b)):
+            return _np.isclose(a, b, rtol=rtol, atol=atol, equal_nan=equal_nan)
+        A, B = _np.broadcast_arrays(_np.asarray(a, dtype=object), _np.asarray(b, dtype=object))
+        out = _np.empty(A.shape, dtype=object)
+        zabs = lambda e: z3.If(e >= 0, e, -e)
+        for idx in _np.ndindex(A.shape):
+            x, y = A[idx], B[idx]
+            ex = x.e if isinstance(x, SymReal) else realval(x)
+            ey = y.e if isinstance(y, SymReal) else realval(y)
+            out[idx] = SymBool(zabs(ex - ey) <= realval(atol) + realval(rtol) * zabs(ey))
+        return out if out.shape else out[()]
+
+    def allclose(self, a, b, rtol=1e-05, atol=1e-08, equal_nan=False):
+        if not has_sym((a, b)):
+            return _np.allclose(a, b, rtol=rtol, atol=atol, equal_nan=equal_nan)
+        r = self.isclose(a, b, rtol=rtol, atol=atol)
+        if isinstance(r, SymBool):
+            return r
+        return SymBool(z3.And(*[x.e for x in r.ravel()]))
+
     def round(self, a, *args, **kw):
         if isinstance(a, _np.ndarray) and a.dtype == object:
             out = _np.empty(a.shape, dtype=object)
